@@ -150,7 +150,13 @@ func genSemaExpr(rng *rand.Rand, env *semaEnv, depth int) string {
 		}
 	}
 	sub := func() string { return genSemaExpr(rng, env, depth-1) }
-	switch rng.Intn(14) {
+	switch rng.Intn(17) {
+	case 14:
+		return "(" + sub() + " || " + sub() + ")"
+	case 15:
+		return "(" + sub() + " && " + sub() + ")"
+	case 16:
+		return "!(" + sub() + []string{" || ", " && "}[rng.Intn(2)] + sub() + ")"
 	case 0:
 		return "!" + sub()
 	case 1:
